@@ -1,7 +1,9 @@
 (* FeaturesIO.v — decoding of generated cases and encoding of observations for the
    state-feature model (dispatch kind 8).
    case := [order; states; transitions; ignore; nmodels; init; history; tags; hooks;
-            paths; inits; pre; cls; k]
+            paths; inits; pre; cls; k; retrig]
+     retrig      : list of [callback; event; budget]: the enter callback triggers the event on its
+                   model the first <budget> times it is invoked (non-empty = re-entrant case)
      paths       : list of [state; [ids from the root ancestor to the state]]   ([] = flat)
      inits       : list of [compound state; initial child]
      pre, cls    : lists of [model; hook; object id]: instance / class attributes that exist
@@ -21,7 +23,7 @@
      tag table : per state, per inspected tag: [] (AttributeError) or [bool]
      step      : [items; result; per model [state; per inspected hook: [] or [object id]]] *)
 From Coq Require Import List Arith Bool.
-From M Require Import Sx Features FeaturesSpec FeaturesH FeaturesDyn.
+From M Require Import Sx Features FeaturesSpec FeaturesH FeaturesDyn FeaturesRe.
 Import ListNotations.
 
 Definition d_feature (x : sx) : option feature :=
@@ -112,15 +114,38 @@ Definition e_tagtable (c : fcfg) (tags : list nat) : sx :=
 (* flat case (no paths, no initial children): the flat engine [frun] of the theorems, its
    specification, and the hierarchical engine on the same flat configuration (must coincide);
    nested case: the hierarchical engine [hrun]. *)
+(* re-entrant cases *)
+Definition trig_of (h : list fop) : list (fmodel * fevent) :=
+  flat_map (fun op => match op with OTrig m e => [(m, e)] | _ => [] end) h.
+Fixpoint lookup_retrig (l : list (nat * nat * nat)) (cb : nat) : option (nat * nat) :=
+  match l with
+  | [] => None
+  | (a, e, b) :: r => if Nat.eqb a cb then Some (e, b) else lookup_retrig r cb
+  end.
+Definition out_of_fuel : sx := L [L []; L [N 2; N 0]; L []].
+Definition e_rstep (cl : nat -> nat -> option nat) (nm : nat) (hooks : list nat)
+                   (o : option (list fitem * rworld * fres)) : sx :=
+  match o with
+  | Some (tr, rw, res) => e_step cl nm hooks (tr, rw_w rw, res)
+  | None => out_of_fuel
+  end.
+Definition e_srstep (c : fcfg) (cl : nat -> nat -> option nat) (nm : nat) (hooks : list nat)
+                    (o : option (list fitem * srworld * fres)) : sx :=
+  match o with
+  | Some (tr, rw, res) => e_sstep c cl nm hooks (tr, srw_w rw, res)
+  | None => out_of_fuel
+  end.
+Definition re_fuel : nat := 64.
+
 Definition run_features_case (x : sx) : sx :=
   match x with
-  | L [ox; sx_; tx; ign; N nm; N s0; hx; tgx; hkx; px; ix; prex; clsx; N k] =>
+  | L [ox; sx_; tx; ign; N nm; N s0; hx; tgx; hkx; px; ix; prex; clsx; N k; rtx] =>
       match d_list d_feature ox, d_list d_fstate sx_, d_list d_ftrans tx, d_bool ign,
             d_list d_op hx, d_list d_nat tgx, d_list d_nat hkx,
             d_list (d_pair d_nat (d_list d_nat)) px, d_list (d_pair d_nat d_nat) ix,
-            d_list d_triple prex, d_list d_triple clsx with
+            d_list d_triple prex, d_list d_triple clsx, d_list d_triple rtx with
       | Some o, Some sts, Some ts, Some ig, Some h, Some tags, Some hooks, Some paths, Some inits,
-        Some pre, Some cls =>
+        Some pre, Some cls, Some rts =>
           match build o (map snd sts) with
           | Some e => L [N 1; L [N 1; e_fexn e]]
           | None =>
@@ -128,14 +153,25 @@ Definition run_features_case (x : sx) : sx :=
               let w0 := init_world_p s0 (lookup3 pre) k in
               let cl := lookup3 cls in
               let nocl := fun _ _ : nat => @None nat in
-              match paths, inits with
-              | [], [] =>
+              match rts, paths, inits with
+              | _ :: _, _, _ =>
+                  (* enter callbacks that re-trigger (flat configuration, fixed table) *)
+                  let trg := lookup_retrig rts in
+                  let rw0 := mkRW w0 (fun _ => 0) in
+                  L [N 1; L [N 0; e_tagtable c tags;
+                             L (map (e_rstep cl nm hooks) (rrun re_fuel c trg rw0 (trig_of h)));
+                             L (map (e_rstep nocl nm []) (rrun re_fuel (plain_cfg c) trg rw0 (trig_of h)));
+                             L (map (e_srstep c cl nm hooks)
+                                    (spec_rrun re_fuel c trg (mkSRW (spec_init_p s0 (lookup3 pre) k) (fun _ => 0))
+                                               (trig_of h)));
+                             L []]]
+              | [], [], [] =>
                   L [N 1; L [N 0; e_tagtable c tags;
                              L (map (e_step cl nm hooks) (drun c ts w0 h));
                              L (map (e_step nocl nm []) (drun (plain_cfg c) ts w0 h));
                              L (map (e_sstep c cl nm hooks) (spec_drun c ts (spec_init_p s0 (lookup3 pre) k) h));
                              L (map (e_step cl nm hooks) (hdrun (hflat c) ts w0 h))]]
-              | _, _ =>
+              | [], _, _ =>
                   let hc := mkH c paths inits in
                   L [N 1; L [N 0; e_tagtable c tags;
                              L (map (e_step cl nm hooks) (hdrun hc ts w0 h));
@@ -143,7 +179,7 @@ Definition run_features_case (x : sx) : sx :=
                              L []; L []]]
               end
           end
-      | _, _, _, _, _, _, _, _, _, _, _ => L [N 0]
+      | _, _, _, _, _, _, _, _, _, _, _, _ => L [N 0]
       end
   | _ => L [N 0]
   end.
